@@ -6,7 +6,7 @@ CONSTANTS
   Strict01 = TRUE
   Strict04 = TRUE
   ScenMode = "hist"
-  ScenLen = 18
+  ScenLen = 22
   ScenVals = {1, 2, 3, 4}
   ScenMaxLen = 3
   ScenSlots = {64, 65, 95, 96, 97, 127, 128, 130, 160}
